@@ -106,6 +106,8 @@ def text_and_line_map_written_together(F, res, rule="D1"):
 
 
 def run(F, res, tier):
+    from rules import c14 as _c14u
+    _c14u.text_positions_are_counted_in_bytes(F, res, rule="D18", crates=('glas',))   # engine U: the store edits its texts at byte positions
     text_and_line_map_written_together(F, res)
     line_ends_are_normalised_first(F, res)
     edits_use_the_current_line_map(F, res)
